@@ -6,39 +6,50 @@ import verif
 KID = {"f": ("x", "file"), "s": ("x", "symlink"), "t": ("x", "symlink"), "d": ("x", "dir"), "e": ("../../esc", "file"), "u": ("..", "file")}
 
 
-def features(r):
-    """features of a scenario that are known to let the unchanged restic leave the target (stable names)"""
-    paths = {}
-    has_dir_a = has_dir_ax = has_hl = False
+OUT = {"outdir": "outside/dir", "outfile": "outside/file", "symlink-dir": "outside/dir", "symlink-file": "outside/file"}
+NODE_MODE = {"file": 0o640, "dir": 0o700}      # permission bits of the snapshot's file / dir nodes
+
+
+def explain(r, c):
+    """name of the known mechanism that explains outside change c of scenario r, or None.
+    Known mechanisms only ever change METADATA of the path a symlink points to:
+      dup-symlink-path: the tree lists one path as a symlink (to this outside path) and as a file/dir; the
+        later node's metadata is applied through the freshly created symlink (mode = that node's mode)
+      skipped-hardlink-first-over-preexisting-symlink: hard-link group a,b; target/a pre-exists as symlink to
+        this outside path and is skipped by --overwrite never/if-newer; b becomes a link of the symlink and
+        gets the file node's mode"""
+    if c["w"] != "meta":
+        return None
+    path = "/".join(c["p"])
+    at = {}
+    has_hl = False
     for n in r["nodes"]:
-        paths.setdefault(n["n"], set()).add(n["t"])
+        at.setdefault(n["n"], []).append((n["t"], n["to"]))
         has_hl = has_hl or n["hl"]
         if n["t"] == "dir":
-            if n["n"] == "a":
-                has_dir_a = True
             for k in n["kids"]:
                 nm, ty = KID[k]
-                paths.setdefault(n["n"] + "/" + nm, set()).add(ty)
-                if n["n"] == "a" and k == "d":
-                    has_dir_ax = True
+                at.setdefault(n["n"] + "/" + nm, []).append((ty, {"s": "outdir", "t": "outfile"}.get(k, "")))
+    for p, lst in at.items():
+        others = {t for t, _ in lst if t != "symlink"}
+        for t, to in lst:
+            if t == "symlink" and OUT.get(to) == path and c["m"] in {NODE_MODE[o] for o in others if o in NODE_MODE}:
+                return "dup-symlink-path"
     env, pre = r["env"], r["env"]["pre"]
-    f = []
-    if any("symlink" in ts and len(ts) > 1 for ts in paths.values()):
-        f.append("dup-symlink-path")
-    if env["select"] == "leaves" and ((pre["a"].startswith("symlink") and has_dir_a) or (pre["x"].startswith("symlink") and has_dir_ax)):
-        f.append("unselected-dir-over-preexisting-symlink")
-    if has_hl and pre["a"].startswith("symlink") and env["overwrite"] in ("never", "if-newer"):
-        f.append("skipped-hardlink-first-over-preexisting-symlink")
-    return f
+    if has_hl and OUT.get(pre["a"]) == path and env["overwrite"] in ("never", "if-newer") and c["m"] == NODE_MODE["file"]:
+        return "skipped-hardlink-first-over-preexisting-symlink"
+    return None
 
 
 def classify(r):
     outs = [c for c in r["changes"] if c["p"][0] != "target" and c["w"] != "meta-shared-inode"]
-    f = features(r)
-    if f:
-        return "confine/" + "+".join(f)
-    c = outs[0]
-    return "confine/unexplained/%s/%s" % (c["w"], "/".join(c["p"]))
+    names = set()
+    for c in outs:
+        e = explain(r, c)
+        if e is None:
+            return "confine/unexplained/%s/%s" % (c["w"], "/".join(c["p"]))
+        names.add(e)
+    return "confine/" + "+".join(sorted(names))
 
 
 def run(ctx):
@@ -64,4 +75,4 @@ def run(ctx):
                          "observable state = type, size, sha256, link target, mode, mtime, owner, link count of every path of the sandbox (no atime/ctime); a metadata-only change of an outside inode that was hard-linked into the target before the restore is tolerated",
                          "errors reported by restore are ignored (the CLI continues after them)",
                          "symlink targets are relative paths to the sentinel directory/file next to the target; file system = the sandbox's ext4; root",
-                         "thorough: full cross product with --sparse chosen by parity; quick: seeded 1.2% sample"])
+                         "thorough: seeded 40% sample of the cross product (trees x environments, 'leaves' selection only for trees with a directory) with --sparse chosen by parity; quick: seeded 1.2% sample"])
